@@ -302,6 +302,7 @@ MutOperations(S, doc) ==
 SiblingFor(S, n) ==
   CASE S.id = "pets" -> dOp("query", "Sib", <<dVar(n, NN(Ty("String")), Absent)>>, <<dF("human", <<dA("name", VVar(n))>>, <<dLf("name")>>)>>)
     [] S.id = "args" -> dOp("query", "Sib", <<dVar(n, Ty("Boolean"), Absent)>>, <<dF("b", <<dA("x", VVar(n))>>, <<>>)>>)
+    [] S.id = "deep" -> dOp("query", "Sib", <<dVar(n, NN(Ty("Boolean")), Absent)>>, <<dFD("lone", <<>>, <<dDir("skip", <<dA("if", VVar(n))>>)>>, <<dLf("l")>>)>>)
     [] OTHER -> dOp("query", "Sib", <<dVar(n, NN(Ty("Boolean")), Absent)>>, <<dFD("maybe", <<>>, <<dDir("skip", <<dA("if", VVar(n))>>)>>, <<dLf("id")>>)>>)
 MutSiblingOperation(S, doc) ==
   UNION {LET named == IF doc.ops[ij[1]].name = "" THEN [doc EXCEPT !.ops[ij[1]].name = "Sel", !.opName = "Sel"]
